@@ -14,6 +14,7 @@ import (
 	"net/url"
 	"strconv"
 	"strings"
+	"time"
 )
 
 // ShapeCase is one tuple printed by TLC.
@@ -42,6 +43,7 @@ type ShapeObs struct {
 	Diff      []string `json:"diff,omitempty"`
 	Skip      string `json:"skip,omitempty"`         // the template has no such field (model / harness mismatch)
 	Incon     string `json:"inconclusive,omitempty"` // unsupported SQL in pgmodel
+	Ms        int64  `json:"ms"`
 }
 
 type template struct {
@@ -89,7 +91,7 @@ func shapeTemplates() map[string]template {
 		"v2/tx_meta_del":      {"DELETE", "/v2/{ledger}/transactions/{id}/metadata/{key}", q(), "", pp()},
 		"v2/acct_meta_add":    {"POST", "/v2/{ledger}/accounts/{address}/metadata", q(), `{"k":"v"}`, pp()},
 		"v2/acct_meta_del":    {"DELETE", "/v2/{ledger}/accounts/{address}/metadata/{key}", q(), "", pp()},
-		"v2/bulk":             {"POST", "/v2/{ledger}/_bulk", q("atomic", "false", "parallel", "false", "continueOnFailure", "false"), bulk, pp()},
+		"v2/bulk":             {"POST", "/v2/{ledger}/_bulk", q("atomic", "true", "parallel", "false", "continueOnFailure", "false"), bulk, pp()},
 		"v2/ledger_create":    {"POST", "/v2/{ledger}", q(), `{"bucket":"b2","metadata":{"k":"v"},"features":{"HASH_LOGS":"SYNC"}}`, map[string]string{"ledger": "newl"}},
 		"v2/ledger_meta":      {"PUT", "/v2/{ledger}/metadata", q(), `{"k":"v"}`, pp()},
 		"v2/schema_insert":    {"POST", "/v2/{ledger}/schemas/{version}", q(), schema, pp()},
@@ -124,7 +126,9 @@ func shapeTemplates() map[string]template {
 		"v1/acct_meta_add":    {"POST", "/{ledger}/accounts/{address}/metadata", q(), `{"k":"v"}`, pp()},
 		"v1/acct_meta_del":    {"DELETE", "/{ledger}/accounts/{address}/metadata/{key}", q(), "", pp()},
 		// ---- v1 reads
-		"v1/tx_list":      {"GET", "/{ledger}/transactions", q("pageSize", "5", "after", "10", "reference", "p1", "account", "alice", "source", "world", "destination", "alice", "startTime", "2030-01-01T00:00:00Z", "endTime", "2030-01-01T00:01:00Z", "metadata[k]", "v"), "", pp()},
+		"v1/tx_list":      {"GET", "/{ledger}/transactions", q("pageSize", "5", "reference", "p1", "account", "alice", "source", "world", "destination", "alice", "startTime", "2030-01-01T00:00:00Z", "endTime", "2030-01-01T00:01:00Z", "metadata[k]", "v"), "", pp()},
+		"v1/tx_list_after": {"GET", "/{ledger}/transactions", q("after", "10"), "", pp()},
+		"v1/logs_list_after": {"GET", "/{ledger}/logs", q("after", "10"), "", pp()},
 		"v1/tx_count":     {"HEAD", "/{ledger}/transactions", q("account", "alice"), "", pp()},
 		"v1/tx_read":      {"GET", "/{ledger}/transactions/{id}", q(), "", pp()},
 		"v1/acct_list":    {"GET", "/{ledger}/accounts", q("pageSize", "5", "address", "alice", "balance", "0", "balanceOperator", "gte", "metadata[role]", "v", "after", "zzz"), "", pp()},
@@ -148,20 +152,83 @@ type RouteDesc struct {
 	Method string      `json:"method"`
 	Write  bool        `json:"write"`
 	Body   []FieldDesc `json:"body"`
-	Query  []string    `json:"query"`
-	PathP  []string    `json:"path"`
+	Query  []FieldDesc `json:"query"`
+	PathP  []FieldDesc `json:"path"`
+	Paged  bool        `json:"paged"` // accepts a cursor
 }
 
+// FieldDesc: a position of a request. Type is the JSON type of the valid value (object | array | string |
+// number | bool; query and path positions are strings); Class is what the value means, which selects
+// the boundary values the model tries there (addr, asset, date, amount, id, int, bool, enum, filter, name, text).
 type FieldDesc struct {
-	Path string `json:"path"`
-	Type string `json:"type"` // object | array | string | number | bool
+	Path  string `json:"path"`
+	Type  string `json:"type"`
+	Class string `json:"class"`
+}
+
+func classOfBodyLeaf(path, typ string) string {
+	last := path
+	if i := strings.LastIndex(path, "."); i >= 0 {
+		last = path[i+1:]
+	}
+	switch {
+	case typ == "string" && (last == "source" || last == "destination" || last == "dst" || strings.HasSuffix(path, "targetId")):
+		return "addr"
+	case typ == "string" && last == "asset":
+		return "asset"
+	case typ == "string" && last == "timestamp":
+		return "date"
+	case last == "amount":
+		return "amount"
+	case typ == "number" && (last == "id" || last == "targetId"):
+		return "id"
+	case typ == "string" && (last == "bucket" || last == "action" || last == "targetType"):
+		return "enum"
+	case typ == "string":
+		return "text"
+	}
+	return ""
+}
+
+func classOfQuery(route, name string) string {
+	switch name {
+	case "pageSize", "groupBy", "balance":
+		return "int"
+	case "after":
+		if strings.Contains(route, "acct") {
+			return "addr"
+		}
+		return "int"
+	case "pit", "oot", "startTime", "endTime":
+		return "date"
+	case "query":
+		return "filter"
+	case "expand", "sort", "order", "balanceOperator":
+		return "enum"
+	case "reverse", "force", "atEffectiveDate", "atomic", "parallel", "continueOnFailure", "insertionDate", "useInsertionDate",
+		"preview", "disableChecks", "dryRun":
+		return "bool"
+	case "address", "account", "source", "destination":
+		return "addr"
+	}
+	return "text"
+}
+
+func classOfPath(name string) string {
+	switch name {
+	case "id":
+		return "int"
+	case "address":
+		return "addr"
+	}
+	return "name"
 }
 
 func walk(prefix string, v any, out *[]FieldDesc) {
 	switch t := v.(type) {
 	case map[string]any:
 		if prefix != "" {
-			*out = append(*out, FieldDesc{prefix, "object"})
+			*out = append(*out, FieldDesc{prefix, "object", ""})
 		}
 		keys := make([]string, 0, len(t))
 		for k := range t {
@@ -177,7 +244,7 @@ func walk(prefix string, v any, out *[]FieldDesc) {
 		}
 	case []any:
 		if prefix != "" {
-			*out = append(*out, FieldDesc{prefix, "array"})
+			*out = append(*out, FieldDesc{prefix, "array", ""})
 		}
 		for i, x := range t {
 			p := strconv.Itoa(i)
@@ -187,11 +254,11 @@ func walk(prefix string, v any, out *[]FieldDesc) {
 			walk(p, x, out)
 		}
 	case string:
-		*out = append(*out, FieldDesc{prefix, "string"})
+		*out = append(*out, FieldDesc{prefix, "string", ""})
 	case json.Number:
-		*out = append(*out, FieldDesc{prefix, "number"})
+		*out = append(*out, FieldDesc{prefix, "number", ""})
 	case bool:
-		*out = append(*out, FieldDesc{prefix, "bool"})
+		*out = append(*out, FieldDesc{prefix, "bool", ""})
 	}
 }
 
@@ -221,20 +288,31 @@ func DescribeRoutes() []RouteDesc {
 	var out []RouteDesc
 	for _, n := range names {
 		t := ts[n]
-		d := RouteDesc{Route: n, API: n[:2], Method: t.method, Write: t.method != "GET" && t.method != "HEAD", Body: []FieldDesc{}, Query: []string{}, PathP: []string{}}
+		d := RouteDesc{Route: n, API: n[:2], Method: t.method, Write: t.method != "GET" && t.method != "HEAD", Body: []FieldDesc{}, Query: []FieldDesc{}, PathP: []FieldDesc{}}
 		if t.body != "" {
 			if v, err := decodeNum(t.body); err == nil {
-				d.Body = append(d.Body, FieldDesc{"", jsonType(v)})
+				d.Body = append(d.Body, FieldDesc{"", jsonType(v), ""})
 				walk("", v, &d.Body)
+				for i := range d.Body {
+					d.Body[i].Class = classOfBodyLeaf(d.Body[i].Path, d.Body[i].Type)
+				}
 			}
 		}
+		qs := []string{}
 		for k := range t.query {
-			d.Query = append(d.Query, k)
+			qs = append(qs, k)
 		}
-		sortStrings(d.Query)
+		sortStrings(qs)
+		for _, k := range qs {
+			d.Query = append(d.Query, FieldDesc{k, "string", classOfQuery(n, k)})
+			if k == "pageSize" {
+				d.Paged = true
+			}
+		}
 		for _, seg := range strings.Split(t.path, "/") {
 			if strings.HasPrefix(seg, "{") {
-				d.PathP = append(d.PathP, strings.Trim(seg, "{}"))
+				name := strings.Trim(seg, "{}")
+				d.PathP = append(d.PathP, FieldDesc{name, "string", classOfPath(name)})
 			}
 		}
 		out = append(out, d)
@@ -524,8 +602,8 @@ func ShapeBase() (*Env, error) {
 }
 
 // RunShape instantiates the case on a copy of base.
-func RunShape(base *Env, baseHash string, baseSnap Snapshot, c ShapeCase) ShapeObs {
-	out := ShapeObs{ID: c.ID}
+func RunShape(base *Env, baseHash string, baseSnap Snapshot, c ShapeCase) (out ShapeObs) {
+	out = ShapeObs{ID: c.ID}
 	method, path, body, ok := Instantiate(c)
 	if !ok {
 		out.Skip = "no such position in the template"
@@ -539,6 +617,8 @@ func RunShape(base *Env, baseHash string, baseSnap Snapshot, c ShapeCase) ShapeO
 	if len(out.Path) > 400 {
 		out.Path = out.Path[:400] + "…"
 	}
+	t0 := time.Now()
+	defer func() { out.Ms = time.Since(t0).Milliseconds() }()
 	f := base.Fork()
 	defer f.Close()
 	var b any
